@@ -221,6 +221,17 @@ func Interp(in *postscript.Interpreter) string {
 	return d.sb.String()
 }
 
+// InterpNoDSC is Interp without the DSC comment list.  Execute appends the
+// comments of a call only when that call succeeds, so after a failing call the
+// list legitimately depends on how the program was cut into calls.
+func InterpNoDSC(in *postscript.Interpreter) string {
+	s := Interp(in)
+	if i := strings.LastIndex(s, "\nDSC:"); i >= 0 {
+		return s[:i+1]
+	}
+	return s
+}
+
 // InterpNoOps is Interp without the operation counter (for comparisons across
 // different ways of feeding the same program where the count is not part of
 // the claim).
